@@ -1,7 +1,7 @@
 ---- MODULE OrdaCodec ----
 (***************************************************************************)
 (* The enumeration grid of C14: operation type x value class x position in *)
-(* a batch.  There is no behaviour to explore - every grid point is an     *)
+(* a batch x identifier class.  There is no behaviour to explore - every grid point is an     *)
 (* initial state; TLC enumerates them all and prints one line per point.   *)
 (* The harness maps the class names to concrete Go values (every numeric   *)
 (* width, pointers, structs, maps, slices, nesting, empty containers,      *)
@@ -19,11 +19,14 @@ ValueClasses == {"int", "int8", "int16", "int32", "int64", "uint", "uint8", "uin
                  "float32", "float64", "bigfloat", "tinyfloat", "negzero", "bool", "str", "emptystr", "unicode", "emoji", "separators", "escapes", "control", "longstr",
                  "ptrint", "ptrstr", "struct", "map", "nestedmap", "emptymap", "slice", "emptyslice", "mixedslice", "deep"}
 Positions == {"single", "first", "last"}
+\* the identifier the operation carries: small counters; a non-zero era; counters beyond 32 bits
+IdClasses == {"small", "era", "big"}
 HasValue(t) == t \in {"map.put", "list.insert", "list.update", "doc.put", "doc.ins", "doc.upd", "snapshot.map", "snapshot.list", "snapshot.doc"}
 HasBatch(t) == t \in {"list.insert", "list.update", "doc.ins", "doc.upd"}
-Grid == {g \in [type : OpTypes, cls : ValueClasses, pos : Positions] :
+Grid == {g \in [type : OpTypes, cls : ValueClasses, pos : Positions, idc : IdClasses] :
             /\ (~HasValue(g.type) => g.cls = "int")
-            /\ (~HasBatch(g.type) => g.pos = "single")}
+            /\ (~HasBatch(g.type) => g.pos = "single")
+            /\ (g.idc # "small" => g.cls \in {"int", "nestedmap"} /\ g.pos = "single")}
 VARIABLE g
 Init == g \in Grid
 Next == UNCHANGED g
